@@ -22,10 +22,24 @@ RULE = ("texts: (1) random strings of 1-40 tokens over the Mech token alphabet (
         "with combining characters / emoji / box-drawing spliced in; (5) nesting-depth ladders and stray mika brackets (known findings). "
         "non-trivial = distinct text judged ok (tree or in-range report)")
 ASSUMPTIONS = [
-    "PARTIAL BY DESIGN: the machine-checked proof covers the hand-written recovery skeleton (mech_code / section / body loops, "
-    "parse()'s remaining-must-be-empty rule) and the cursor -> (row, col) range arithmetic, under explicit assumptions about the "
-    "leaf parsers (results carry cursors in [i, len]; code_terminal consumes nothing only at eof or before a mika close; section "
-    "elements consume at least one grapheme).  The ~5000-line nom grammar itself is not modelled.",
+    "PARTIAL: (a) the recovery skeleton (mech_code / section / body loops, parse()'s remaining-must-be-empty rule) and the cursor -> "
+    "(row, col) range arithmetic are proved for abstract leaf parsers (`leaf_ok`: results carry cursors in [i, len]; code_terminal "
+    "consumes nothing only at eof or before a mika close; section elements consume at least one grapheme); (b) the ~5000-line nom "
+    "grammar is re-extracted from /repo/src/syntax/src/*.rs on every run (translators/parser_grammar.py -> Gen/ParserGrammar.v: one "
+    "entry per parser function, every nom repetition and hand-written parsing loop a recursive entry) and a machine-checked progress "
+    "analysis (Model/Progress.v, theorems 20-28) shows on the CURRENT source: no call cycle without consumption (no left recursion; "
+    "every loop advances or stops) outside the two recovery loops of (a), all nom repetition guards dead except two allow-listed ones "
+    "(spurious Err, not a hang), termination of every parser function at recursion depth <= (|input|+1)*R*S.",
+    "the progress theorems are about the EXTRACTED grammar: the translator (a symbolic executor for the Rust subset the parser is "
+    "written in) is trusted to be faithful; what it does not understand becomes an explicit unknown node (count in the evidence: "
+    "translator.unknown_nodes; 4 functions, theorem 25) and is never assumed to consume.  The primitive leaves (ParseString::consume_*), "
+    "nom 7.1.3's many0/many1/many_till/separated_list0/1, nom's alt/opt/peek/not/cut/tuple and lib.rs::alt_best are modelled by hand from "
+    "their source; the repetition combinators and alt_best are pinned by a source fingerprint (translators/pg_pins.json), a mismatch "
+    "downgrades them to unknown.  Parses of a different text from inside the parser (fenced ```mech / ```ebnf blocks, rich comments) "
+    "are opaque conditions: their termination follows from the same theorem applied to the shorter text, which is not formalised.",
+    "recursion DEPTH is bounded linearly in the input, the number of steps is not (alt_best re-parses: finding exp-nesting), and a "
+    "linear depth still overflows the native stack on long operator runs (finding stack-overflow-prefix-run); panics inside leaf "
+    "parsers (9 unreachable!() / unwrap sites are explicit SPanic leaves of the grammar) are searched, not proved absent.",
     "absence of panics and hangs inside the leaf parsers, and the leaf assumptions themselves, are SEARCHED on this run's cases "
     "(catch_unwind + a wall-clock budget of STALL seconds without output), not proved",
     "a parse that needs longer than the budget is indistinguishable from a hang for the check (the exponential cost of nested brackets "
@@ -401,6 +415,11 @@ def generate(tier, rng):
         add(emit("paragraph with ⸥ inside\n", stream="mika-close"))
         add(emit("⸢ a ⸥ ⸥", stream="mika-close"))
 
+    # (9) inputs aimed at the sites the progress analysis talks about: the two nom guards that may fire (a spurious error is
+    #     fine, a hang / abort is not), the hand-written loops, and whatever site the analysis flagged on this run
+    for t in targeted_inputs(_DIAG.get("flagged_functions", [])):
+        add(emit(t, stream="targeted"))
+
     # interleave so that slow cases are spread over the worker chunks
     rng.shuffle(out)
     for c in out:
@@ -431,3 +450,166 @@ def shrink(c):
             seen.add(t)
             res.append(case(t, **dict(c.get("tags", {}), shrunk=1)))
     return res
+
+
+# --------------------------------------------------------------------------- progress analysis of the real grammar
+_DIAG = {}
+ASSUMED_LOOPS = ["mech_code$loop#1", "section$loop#1"]            # = Model/ProgressInst.v assumed_loops   (diagnostics only)
+GUARDS_ALLOWED = ["paragraph$many1#1", "regular_table$separated_list1#1"]     # = guards_allowed
+UNKNOWN_EXPECTED = ["code_block", "mika_eye_left", "mika_eye_right", "mika_nose"]
+
+# texts that exercise a construct, by the parser function that implements it (input quality only)
+SNIPPETS = {
+    "paragraph": ["x {", "hello {", "a { 1 +", "text {{", "p [^", "a $$", "t ![", "x {\n", "para **", "a `b", "q [x](", "w {{ x := "],
+    "regular_table": ["| a<u8> |\n| 1 |x", "x := | a<u8> |\n| 1 |)", "| x<u8> y<u8> |\n| 1 2 |\n| 3 4 |x\n", "| a<u8> |\n| 1 |", "| a<u8> |\n| 1 |\n\n\n"],
+    "mech_code": ["x := 1;", "x := 1 ;; y", "x := (\n;\n", "1 +\n", "x := 1 -- c", "x := 1\n⸥", "x = = 1; y := 2", "f(x\n"],
+    "section": ["a\n\nb\n\n1. x\n---\n", "- a\n  - b\n    - c\n- d\n", "1. a\n2. b\n  1. c\n", "- [x] a\n- [ ] b\n  - [x] c\n", "> q\n\n(i)> info\n", "⸢ hi ⸥\n", "╭◉╮ ⸢ x ⸥"],
+    "body": ["⸥", "⸥\n⸥", "x\n⸥\ny", "  \n\n ⸥"],
+    "pattern_array": ["x := [1 2]?\n | [a, b] => 1\n | [a | r] => 2.", "f(x<[u8]>) => <u8>\n | [a, ...] => 1\n | [] => 0.", "x ? | [a, , b] => 1", "x ? | [a | ] => 1", "x ? | [... ...] => 1"],
+    "title_front_matter": ["T\n===\nauthor: me\ndate: now\n===\n", "T\n=\nhero: ![a](b)\n=\n", "T\n===\nauthor:\n===\n", "T\n===\nauthor me\n===\n", "T\n===\nk: v"],
+    "unordered_list": ["- a\n- b\n", "- a\n  - b\n - c\n", "-\n", "- \n", "- a\n-- c\n"],
+    "ordered_list": ["1. a\n2. b\n", "1. a\n   1. b\n", "1.\n", "1. a\n--\n"],
+    "check_list": ["- [x] a\n", "- [ ] a\n  - [x] b\n", "- [x]\n", "- [\n"],
+    "skip_till_eol": ["x := (\n", "-- c", "// c\n\n"],
+    "skip_till_section_element": ["x := [\n\n\n# t\n", "((\n((\n"],
+    "code_block": ["```mech\nx := 1\n```\n", "~~~\nabc\n~~~", "```ebnf\na := \"b\" ;\n```\n", "```mech\n```", "```\n", "```mech {output: false}\nx\n```\n", "~~~mech\nx := (\n```\n~~~\n"],
+    "comment": ["-- a {", "-- [x](", "// **", "-- \n"],
+    "matrix": ["x := [1 2\n3 4]", "x := [\n1 2;\n]", "x := ┌ ┐\n│ 1 │\n└ ┘", "x := [1, 2; 3,]"],
+    "string": ['x := "a\nb"', 'x := """a "" b"""', 'x := "', 'x := """'],
+    "set": ["x := {1, 2 3}", "x := {1,}", "x := {x | x <- 1..3}", "x := {x | }"],
+    "fsm": ["#f(x<u8>) -> :a\n  :a -> :b\n  :b => 1.", "#f() ->", "#f => <u8>\n  ├ :a\n  └ :b."],
+    "function_define": ["f(x<u8>) = y<u8> := y := x + 1.", "f(x<u8>) => <u8>\n | 1 => 2\n | * => 3.", "f(x<u8>) =>", "f() = "],
+}
+
+
+def targeted_inputs(flagged):
+    out = []
+    keys = ["paragraph", "regular_table", "mech_code", "section", "body"] + [f for f in flagged if f in SNIPPETS]
+    for f in flagged:                       # a flagged entry of a function we have no snippet for: use the ones of its callers' family
+        base = f.split("$")[0].split("::")[-1]
+        for k in SNIPPETS:
+            if k in base and k not in keys:
+                keys.append(k)
+    seen = set()
+    for k in keys:
+        for t in SNIPPETS.get(k, []):
+            for v in (t, t + "\n", t + " ", t + "x", "  " + t, t + t, t[:-1], t + "\n" + t):
+                if v not in seen:
+                    seen.add(v)
+                    out.append(v)
+    return out
+
+
+def pregen():
+    """regenerate Gen/ParserGrammar.v from the current parser source; run the UNTRUSTED python mirror of the analysis to
+    have readable diagnostics ready (the verdict is Coq's: theorem C09_parser_loops_guarded)."""
+    import sys
+    sys.path.insert(0, os.path.join(os.path.dirname(os.path.dirname(os.path.abspath(__file__))), "translators"))
+    import importlib
+    PG = importlib.import_module("parser_grammar")
+    A = importlib.import_module("pg_analysis")
+    st = PG.regenerate(root=_REPO_ROOT)
+    try:
+        an = A.Analysis(PG.LAST["grammar"])
+        X = PG.LAST["X"]
+        where = {}
+        for k, m, l, _ in PG.LAST["entries"]:
+            where[k] = "src/syntax/src/%s.rs:%d" % (m, l)
+        def loc(entry):
+            base = entry.split("$more")[0]
+            if base in X.rep_sites:
+                kind, fn, l, c = X.rep_sites[base]
+                return "%s `%s` in %s at line %d col %d" % (where.get(fn, fn), kind, fn, l, c)
+            if base in X.loop_sites:
+                fn, l, c = X.loop_sites[base]
+                return "%s hand-written loop in %s at line %d" % (where.get(fn, fn), fn, l)
+            return where.get(entry, entry)
+        cycles = an.cycles()
+        bad_cycles = [c for c in cycles if not all(x in ASSUMED_LOOPS for x in c)]
+        guards = sorted(g.split(":", 1)[1] for g in an.guards_live())
+        bad_guards = [g for g in guards if g not in GUARDS_ALLOWED]
+        unk_fns = sorted(set(s.split(":")[0] for s in X.unknown_sites))
+        diag = dict(
+            unexpected_cycles=[dict(entries=c, where=[loc(x) for x in c],
+                                    meaning="these entries can call each other before anything is consumed: a loop that may not advance / left recursion")
+                               for c in bad_cycles],
+            unexpected_live_guards=[dict(site=g, where=loc(g), why_body_may_not_consume=an.why_nullable(g + "$more")[:12] or an.why_nullable(g)[:12],
+                                         meaning="nom's guard of this repetition may fire: spurious Err::Error, and the body is a candidate for a missing consuming token")
+                                    for g in bad_guards],
+            unexpected_unknown_functions=[f for f in unk_fns if f not in UNKNOWN_EXPECTED],
+            unknown_sites={k: v for k, v in X.unknown_sites.items()},
+            allow_listed=dict(assumed_loops=ASSUMED_LOOPS, guards=GUARDS_ALLOWED, unknown_functions=UNKNOWN_EXPECTED),
+            nullable_source_functions=[k for k, _, _, _ in PG.LAST["entries"] if an.nu.get(k)],
+        )
+        flagged = sorted(set(x.split("$")[0] for c in bad_cycles for x in c) | set(g.split("$")[0] for g in bad_guards))
+        diag["flagged_functions"] = flagged
+        _DIAG.clear(); _DIAG.update(diag)
+        st["mirror_analysis"] = dict(cycles=cycles, live_guards=guards, unexpected=len(bad_cycles) + len(bad_guards) + len(diag["unexpected_unknown_functions"]))
+    except Exception as ex:                   # diagnostics only
+        st["mirror_analysis"] = "unavailable: %r" % (ex,)
+    return st
+
+
+def check(tier, seed, replay=None):
+    """the standard flow, plus: when the proof step fails, the sites found by the (mirror of the) analysis are written into the
+    replay file and printed; thorough tier: the mutation self-test of the obligation (tools/c09_selftest.py)."""
+    import glob, json, sys, time
+    from vlib import core, flow
+    class _Self(object):                  # this module, as the plugin object of the standard flow (without `check`)
+        def __getattr__(self, k):
+            if k == "check" or k not in globals():
+                raise AttributeError(k)
+            return globals()[k]
+    me = _Self()
+    t0 = time.time()
+    rc = flow.standard_check(me, tier, seed, replay)
+    evp = os.path.join(core.EVID, PROP + ".json")
+    try:
+        ev = json.load(open(evp))
+    except Exception:
+        return rc
+    failed = ev.get("coverage", {}).get("proof_step_failed")
+    if _DIAG:
+        ev["coverage"]["progress_analysis"] = {k: _DIAG[k] for k in ("unexpected_cycles", "unexpected_live_guards", "unexpected_unknown_functions", "allow_listed", "flagged_functions")}
+    if failed and _DIAG and not replay:
+        unexpected = _DIAG["unexpected_cycles"] or _DIAG["unexpected_live_guards"] or _DIAG["unexpected_unknown_functions"]
+        for rp in sorted(glob.glob(os.path.join(core.REPLAYS, PROP + "-*.json")), key=os.path.getmtime)[-6:]:
+            if os.path.getmtime(rp) < t0:
+                continue
+            try:
+                r = json.load(open(rp))
+            except Exception:
+                continue
+            if r.get("no_failing_input_found"):
+                r["progress_analysis"] = dict(_DIAG, note="UNTRUSTED python mirror of Model/Progress.v, for orientation; the failing theorem is in `broken`")
+                json.dump(r, open(rp, "w"), indent=1, sort_keys=True)
+        if unexpected:
+            core.log("[C09] progress analysis (mirror) — sites that are not allow-listed:")
+            for c in _DIAG["unexpected_cycles"]:
+                core.log("[C09]   no-progress cycle: %s" % " -> ".join(c["entries"]))
+                for w in c["where"]:
+                    core.log("[C09]       %s" % w)
+            for g in _DIAG["unexpected_live_guards"]:
+                core.log("[C09]   repetition body may not consume: %s  (%s)" % (g["site"], g["where"]))
+                for w in g["why_body_may_not_consume"]:
+                    core.log("[C09]       %s" % w)
+            for f in _DIAG["unexpected_unknown_functions"]:
+                core.log("[C09]   unknown node in function %s: %s" % (f, [v for k, v in _DIAG["unknown_sites"].items() if k.startswith(f + ":")][:2]))
+    if tier == "thorough" and not replay:
+        sys.path.insert(0, os.path.join(core.ROOT, "tools"))
+        import importlib
+        ST = importlib.import_module("c09_selftest")
+        ok, results = ST.run(log=lambda line: core.log("[C09] selftest " + line))
+        ev["coverage"]["selftest"] = dict(ok=ok, mutants=results)
+        undetected = [r["mutant"] for r in results if r.get("detected") is False and r["mutant"] != "baseline"]
+        dirty = [r for r in results if r["mutant"] == "baseline" and not r.get("clean")]
+        if undetected or dirty:
+            path = core.write_replay(PROP, dict(property=PROP, no_failing_input_found=True, seed=seed, tier=tier,
+                                                broken=dict(kind="selftest", what="selftest:progress-obligation does not detect %s" % (undetected or "a clean baseline"), results=results)))
+            print("VIOLATION property=%s replay=%s no-failing-input-found" % (PROP, path))
+            ev["violations"] = ev.get("violations", 0) + 1
+            rc = 1
+    tmp = evp + ".tmp"
+    json.dump(ev, open(tmp, "w"), indent=1, sort_keys=True)
+    os.replace(tmp, evp)
+    return rc
